@@ -1,12 +1,8 @@
 //! hv — property checks for w-henderson/Humphrey (see /verif/DESIGN.md).
 //! usage: hv <ID> <quick|thorough>  |  hv <ID> --replay <file>  |  hv worker <...>
 
-#[macro_use]
-pub mod engine;
-pub mod common;
-pub mod props;
-
-use engine::{Ctx, Tier};
+use hv::engine::{self, Ctx, Tier};
+use hv::props;
 
 #[global_allocator]
 static ALLOC: engine::worker::CountingAlloc = engine::worker::CountingAlloc;
